@@ -102,7 +102,7 @@ fn values<L: LitName>(tier: Tier) -> Vec<OrderedAig<L>> {
                     } else {
                         vec![[0, 0, 0, 0], [1, 1, 1, 1], [2, 2, 2, 2], [2, 0, 1, 0], [0, 1, 0, 2], [0, 0, 0, 1], [0, 0, 1, 0], [0, 1, 0, 0], [1, 0, 0, 0]]
                     };
-                    let justice_patterns: Vec<Vec<usize>> = if q { vec![vec![], vec![0], vec![2, 0]] } else { vec![vec![], vec![0], vec![1], vec![2, 0], vec![0, 1], vec![2, 2]] };
+                    let justice_patterns: Vec<Vec<usize>> = if q { vec![vec![], vec![0], vec![2, 0], vec![0, 1], vec![1, 0, 2], vec![0, 0, 1]] } else { vec![vec![], vec![0], vec![1], vec![2, 0], vec![0, 1], vec![2, 2], vec![1, 0, 2], vec![0, 0, 1], vec![2, 0, 0, 1]] };
                     for (lp, &(lnext, linit)) in latch_patterns.iter().enumerate() {
                         if nl == 0 && lp > 0 {
                             break;
@@ -218,6 +218,9 @@ fn values<L: LitName>(tier: Tier) -> Vec<OrderedAig<L>> {
         // every variable used as an input
         let mmax = (L::MAX_CODE - 1) / 2;
         out.push(OrderedAig { max_var_index: mmax, input_count: mmax, outputs: vec![l(2 * mmax + 1)], ..OrderedAig::default() });
+        // the last variable is a latch / an and gate
+        out.push(OrderedAig { max_var_index: mmax, input_count: mmax - 1, latches: vec![OrderedLatch { next_state: l(2 * mmax + 1), initialization: None }], outputs: vec![l(2 * mmax)], ..OrderedAig::default() });
+        out.push(OrderedAig { max_var_index: mmax, input_count: mmax - 1, and_gates: vec![OrderedAndGate { inputs: [l(3), l(2)] }], outputs: vec![l(2 * mmax)], ..OrderedAig::default() });
     }
     out
 }
